@@ -109,15 +109,15 @@ pub fn write_seeds(target: &str, dir: &Path, seed: u64) -> i32 {
                     x
                 };
                 put(with(0, &key.pk_bytes));
-                put(with(1, &key.sk_bytes));
+                put(with(2, &key.sk_bytes));
                 for i in 0..6u64 {
                     let msg = mix(i).to_le_bytes();
                     let sig = api::sign_with(&msg, &key.sk, Box::new(crate::util::chacha(i))).to_bytes();
-                    put(with(2, &sig));
-                    put(with(3, &sig[41..]));
+                    put(with(3, &sig));
+                    put(with(4, &sig[41..]));
                     let mut m = msg.to_vec();
                     m.extend_from_slice(&sig);
-                    put(with(4, &m));
+                    put(with(7, &m));
                 }
                 // bodies that end exactly at the buffer end / carry long runs (the D1 / D2 shapes)
                 let p = params(*n);
@@ -132,7 +132,7 @@ pub fn write_seeds(target: &str, dir: &Path, seed: u64) -> i32 {
                         flips: vec![],
                         allow_neg_zero: false,
                     };
-                    put(with(3, &spec.render()));
+                    put(with(5, &spec.render()));
                 }
             }
         }
